@@ -233,11 +233,13 @@ W_PREFIX_RULES = [
 DROP_ATTR_RX = re.compile(r'^\s*#\[(inline|allow\(|doc|must_use|cfg_attr)[^\n]*\]\s*$')
 
 
+FORCE_SIG = set()   # items ('module::fn') whose body cannot be spliced / is rejected by the front end: emitted by signature only
 EXTRA_FNS = {}     # repo-relative source path -> [function names] (filled by the driver on 'cannot find function')
 
 
 class Emitter:
     def __init__(self, repo, probe=False):
+        self.stubbed = []      # (item, reason): functions that fell back to signature-only in this generation
         self.probe = probe     # vacuity probes: an `assert(false)` behind every requires / loop invariant; each must FAIL
         self.probes = []       # (probe id, item, where)
         self.repo = repo
@@ -367,6 +369,33 @@ class Emitter:
 
     # -- functions ----------------------------------------------------------------------------
     def emit_fn(self, src, f, mod):
+        item = '%s::%s' % (mod.name, f.rename or f.name)
+        if f.mode == 'body' and (item in FORCE_SIG or '%s::%s' % (mod.name, f.name) in FORCE_SIG):
+            import copy
+            g = copy.copy(f)
+            g.mode = 'sig'
+            self.stubbed.append((item, 'front end rejected the body'))
+            return self._emit_fn(src, g, mod)
+        if f.mode != 'body':
+            return self._emit_fn(src, f, mod)
+        mark = len(self.chunks)
+        nitems = len(self.items)
+        counts = dict(self.rewrite_counts)
+        try:
+            return self._emit_fn(src, f, mod)
+        except AnchorLost as e:
+            # the contract cannot be spliced onto the (changed) body: fall back to the signature with the
+            # contract assumed, and report the function as not verified
+            del self.chunks[mark:]
+            del self.items[nitems:]
+            self.rewrite_counts = counts
+            import copy
+            g = copy.copy(f)
+            g.mode = 'sig'
+            self.stubbed.append((item, 'anchor lost: %s' % e))
+            return self._emit_fn(src, g, mod)
+
+    def _emit_fn(self, src, f, mod):
         loc = rs.find_fn(src.text, src.mask, f.name, f.scope)
         text, m = src.text, src.mask
         item = '%s::%s' % (mod.name, f.name)
